@@ -506,11 +506,18 @@ pub fn run_module(drv: &mut dyn Drv, args: &RunArgs, report: &mut Report) {
             return;
         }
         static_checks(&meta, report);
-        run_episode(drv, &meta, args, *ep, report);
+        if *ep == SERDE_SWEEP || *ep == CLONE_SWEEP {
+            run_sweeps(drv, &meta, args, report);
+        } else {
+            run_episode(drv, &meta, args, *ep, report);
+        }
         return;
     }
     static_checks(&meta, report);
     report.functions_total.insert(meta.module.to_owned(), function_total(&meta) as u64);
+    if args.shard == 0 && args.episodes > 0 {
+        run_sweeps(drv, &meta, args, report);
+    }
     let mut e = args.shard;
     while e < args.episodes {
         run_episode(drv, &meta, args, e, report);
@@ -518,12 +525,8 @@ pub fn run_module(drv: &mut dyn Drv, args: &RunArgs, report: &mut Report) {
     }
 }
 
-fn run_episode(drv: &mut dyn Drv, meta: &Meta, args: &RunArgs, episode: u64, report: &mut Report) {
-    let mut rng = rng_for(args.seed, meta.module, meta.cap, episode);
-    let _ = ledger::close_epoch();
-    let _ = hook_events();
-    let zst0 = ledger::totals();
-    let mut ep = Episode {
+fn new_episode<'a>(drv: &'a mut dyn Drv, meta: &'a Meta, episode: u64) -> Episode<'a> {
+    Episode {
         drv,
         meta,
         slots: vec![None; NSLOTS],
@@ -545,7 +548,214 @@ fn run_episode(drv: &mut dyn Drv, meta: &Meta, args: &RunArgs, episode: u64, rep
         n_vec: 0,
         n_move: 0,
         getters_seen: Default::default(),
+    }
+}
+
+/// Episode numbers of the deterministic sweeps (reported in findings and replayable).
+pub const SERDE_SWEEP: u64 = u64::MAX - 1;
+pub const CLONE_SWEEP: u64 = u64::MAX - 2;
+
+/// Deserialises a malformed input: it must be rejected with an error, without a panic, and
+/// nothing decoded before the failure may stay alive.
+fn expect_rejected(ep: &mut Episode, op: Op, what: &str, report: &mut Report) {
+    let live_before = ledger::live_count();
+    let z0 = ledger::totals();
+    let out = match ep.exec(op, report) {
+        Some(o) => o,
+        None => return,
     };
+    report.count("malformed_inputs", 1);
+    if out.err.is_none() {
+        ep.finding(report, "C15", "malformed-input-accepted", format!("{}: {:?}", what, ep.ops.last()));
+        ep.aborted = true;
+        return;
+    }
+    let z1 = ledger::totals();
+    if ledger::live_count() != live_before || (z1.zst_births - z0.zst_births) != (z1.zst_deaths - z0.zst_deaths) {
+        ep.finding(
+            report,
+            "C15",
+            "rejected-input-leaked-decoded-values",
+            format!(
+                "{}: {} live values before, {} after; zero-size births {} deaths {}",
+                what,
+                live_before,
+                ledger::live_count(),
+                z1.zst_births - z0.zst_births,
+                z1.zst_deaths - z0.zst_deaths
+            ),
+        );
+    }
+}
+
+/// Every position of the first missing / undecodable element, every truncation of the bincode
+/// form, for every variant (C15); every clone point at which a field clone may panic, for
+/// `clone` and `clone_from`, for every variant (C16).
+fn run_sweeps(drv: &mut dyn Drv, meta: &Meta, args: &RunArgs, report: &mut Report) {
+    if meta.has_serde && !args.no_serde {
+        let _ = ledger::close_epoch();
+        let _ = hook_events();
+        let mut ep = new_episode(drv, meta, SERDE_SWEEP);
+        for (v, vm) in meta.variants.iter().enumerate() {
+            if ep.aborted {
+                break;
+            }
+            let n = vm.fields.len();
+            let ids: Vec<u64> = (0..n).map(|_| ep.fresh()).collect();
+            if ep.exec(Op::New { slot: 0, variant: v, ids: ids.clone() }, report).is_none() {
+                break;
+            }
+            ep.slots[0] = Some(SlotModel { variant: v, fields: ids.iter().map(|id| FState::Val { id: *id, serials: vec![] }).collect() });
+            let expected = match ep.exec(Op::Expected { variant: v, ids: ids.clone() }, report) {
+                Some(o) => o,
+                None => break,
+            };
+            let (etext, ebytes) = (expected.text.unwrap_or_default(), expected.bytes.unwrap_or_default());
+            let sj = ep.exec(Op::SerJson { slot: 0 }, report);
+            let sb = ep.exec(Op::SerBin { slot: 0 }, report);
+            if sj.as_ref().and_then(|o| o.text.as_deref()) != Some(etext.as_str()) {
+                ep.finding(report, "C15", "json-encoding-differs-from-declaration-order-model", format!("variant {}: record {:?} model {}", v, sj.and_then(|o| o.text), etext));
+            }
+            if sb.as_ref().and_then(|o| o.bytes.as_deref()) != Some(&ebytes[..]) {
+                ep.finding(report, "C15", "bincode-encoding-differs-from-declaration-order-model", format!("variant {}", v));
+            }
+            report.count("encodings_compared", 2);
+            let value_ok = !vm.fields.iter().any(|f| f.ty == "u128");
+            let elems = split_json_array(&etext);
+            let vias: &[bool] = if value_ok { &[false, true] } else { &[false] };
+            for via_value in vias {
+                for k in 0..n {
+                    // too few elements: the first k only
+                    expect_rejected(&mut ep, Op::DeJson { slot: 1, variant: v, text: format!("[{}]", elems[..k].join(",")), via_value: *via_value }, &format!("variant {}: {} of {} elements", v, k, n), report);
+                    // element k is not decodable
+                    let mut e = elems.clone();
+                    e[k] = "{\"undecodable\":[1,2]}".to_owned();
+                    expect_rejected(&mut ep, Op::DeJson { slot: 1, variant: v, text: format!("[{}]", e.join(",")), via_value: *via_value }, &format!("variant {}: element {} undecodable", v, k), report);
+                    if ep.aborted {
+                        break;
+                    }
+                }
+                let mut e = elems.clone();
+                e.push("7".to_owned());
+                expect_rejected(&mut ep, Op::DeJson { slot: 1, variant: v, text: format!("[{}]", e.join(",")), via_value: *via_value }, &format!("variant {}: one element too many", v), report);
+                // the own encoding round trips
+                if !ep.aborted {
+                    if let Some(out) = ep.exec(Op::DeJson { slot: 1, variant: v, text: etext.clone(), via_value: *via_value }, report) {
+                        if let Some(e) = out.err {
+                            ep.finding(report, "C15", "own-encoding-rejected", format!("variant {}: {}", v, e));
+                        } else {
+                            ep.slots[1] = Some(SlotModel { variant: v, fields: ids.iter().map(|id| FState::Val { id: *id, serials: vec![] }).collect() });
+                            ep.readback("C15", "after decoding the record's own JSON encoding", report);
+                            let _ = ep.exec(Op::Drop { slot: 1 }, report);
+                            ep.slots[1] = None;
+                            report.count("round_trips", 1);
+                        }
+                    }
+                }
+            }
+            for k in 0..ebytes.len() {
+                if ep.aborted {
+                    break;
+                }
+                expect_rejected(&mut ep, Op::DeBin { slot: 1, variant: v, bytes: ebytes[..k].to_vec() }, &format!("variant {}: bincode truncated at byte {} of {}", v, k, ebytes.len()), report);
+            }
+            if !ep.aborted {
+                if let Some(out) = ep.exec(Op::DeBin { slot: 1, variant: v, bytes: ebytes.clone() }, report) {
+                    if let Some(e) = out.err {
+                        ep.finding(report, "C15", "own-encoding-rejected", format!("variant {} (bincode): {}", v, e));
+                    } else {
+                        ep.slots[1] = Some(SlotModel { variant: v, fields: ids.iter().map(|id| FState::Val { id: *id, serials: vec![] }).collect() });
+                        ep.readback("C15", "after decoding the record's own bincode encoding", report);
+                        let _ = ep.exec(Op::Drop { slot: 1 }, report);
+                        ep.slots[1] = None;
+                        report.count("round_trips", 1);
+                    }
+                }
+            }
+            if !ep.aborted {
+                let _ = ep.exec(Op::Drop { slot: 0 }, report);
+                ep.slots[0] = None;
+            }
+            report.count("sweep.serde_variants_swept", 1);
+        }
+        let aborted = ep.aborted;
+        for e in ledger::close_epoch() {
+            if !aborted {
+                ep.finding(report, "C15", "ledger", format!("{:?} at the end of the serialisation sweep", e));
+            }
+        }
+        report.distinct.entry("C15").or_default().insert(vtypes::fnv64(format!("{}|{}|serde-sweep", meta.module, meta.cap).as_bytes()));
+    }
+    if meta.has_clone {
+        let _ = ledger::close_epoch();
+        let _ = hook_events();
+        let mut ep = new_episode(drv, meta, CLONE_SWEEP);
+        for (v, vm) in meta.variants.iter().enumerate() {
+            if ep.aborted {
+                break;
+            }
+            let n = vm.fields.len();
+            let points: usize = vm.fields.iter().map(|f| f.clone_points).sum();
+            if points == 0 {
+                continue;
+            }
+            let ids: Vec<u64> = (0..n).map(|_| ep.fresh()).collect();
+            if ep.exec(Op::New { slot: 0, variant: v, ids: ids.clone() }, report).is_none() {
+                break;
+            }
+            ep.slots[0] = Some(SlotModel { variant: v, fields: ids.iter().map(|id| FState::Val { id: *id, serials: vec![] }).collect() });
+            for k in 1..=points {
+                // clone
+                let live_before = ledger::live_count();
+                if let Some(out) = ep.exec(Op::ClonePanic { from: 0, to: 1, k, assign: false }, report) {
+                    report.count("clone_panics_injected", 1);
+                    if out.panicked.is_none() {
+                        ep.finding(report, "C16", "injected-clone-panic-swallowed", format!("variant {} clone point {} of {}", v, k, points));
+                    }
+                    if ledger::live_count() != live_before {
+                        ep.finding(report, "C16", "partial-clone-leaked", format!("variant {} clone point {}: {} live values before, {} after", v, k, live_before, ledger::live_count()));
+                    }
+                }
+                // clone_from into a fresh target
+                let ids2: Vec<u64> = (0..n).map(|_| ep.fresh()).collect();
+                if ep.exec(Op::New { slot: 1, variant: v, ids: ids2 }, report).is_none() {
+                    break;
+                }
+                if let Some(out) = ep.exec(Op::ClonePanic { from: 0, to: 1, k, assign: true }, report) {
+                    report.count("clone_panics_injected", 1);
+                    if out.panicked.is_none() {
+                        ep.finding(report, "C16", "injected-clone-panic-swallowed", format!("variant {} clone_from clone point {} of {}", v, k, points));
+                    }
+                }
+                // the half-assigned target still drops cleanly (ledger: every value exactly once)
+                let _ = ep.exec(Op::Drop { slot: 1 }, report);
+                if ep.aborted {
+                    break;
+                }
+            }
+            // the source is untouched by all of this
+            ep.readback("C16", "after the panicking clones of the sweep", report);
+            let _ = ep.exec(Op::Drop { slot: 0 }, report);
+            ep.slots[0] = None;
+            report.count("sweep.clone_variants_swept", 1);
+        }
+        let aborted = ep.aborted;
+        for e in ledger::close_epoch() {
+            if !aborted {
+                ep.finding(report, "C16", "ledger", format!("{:?} at the end of the clone-panic sweep", e));
+                ep.finding(report, "C06", "ledger", format!("{:?} at the end of the clone-panic sweep", e));
+            }
+        }
+        report.distinct.entry("C16").or_default().insert(vtypes::fnv64(format!("{}|{}|clone-sweep", meta.module, meta.cap).as_bytes()));
+    }
+}
+
+fn run_episode(drv: &mut dyn Drv, meta: &Meta, args: &RunArgs, episode: u64, report: &mut Report) {
+    let mut rng = rng_for(args.seed, meta.module, meta.cap, episode);
+    let _ = ledger::close_epoch();
+    let _ = hook_events();
+    let zst0 = ledger::totals();
+    let mut ep = new_episode(drv, meta, episode);
     report.count("episodes", 1);
     let nops = rng.range(1, args.max_ops.max(1));
     let nvariants = meta.variants.len();
